@@ -238,6 +238,6 @@ def eval_binned(case):
 def parts(tier):
     t = tier == 'thorough'
     return [
-        Part('obtain', eval_obtain, strategy=strategy, examples=12000 if t else 1200),
-        Part('binned', eval_binned, strategy=strategy, examples=12000 if t else 1200),
+        Part('obtain', eval_obtain, strategy=strategy, examples=24000 if t else 1200),
+        Part('binned', eval_binned, strategy=strategy, examples=24000 if t else 1200),
     ]
